@@ -57,9 +57,16 @@ class EngineCase:
         return res
 
     def _run(self, res):
+        # the engine may legitimately branch on gradient values (e.g. skip work for an all-zero gradient): every feasible path is explored
+        # and the clauses are evaluated on each (on the unchanged engine there is exactly one path)
+        sess = new_session()
+        ex = core.Explorer(max_paths=64)
+        ex.run(lambda: self._run_path(res, sess, ex))
+        res["paths"] = ex.paths
+
+    def _run_path(self, res, sess, ex):
         from synapgrad.tensor import Tensor
         from synapgrad.functional import BackwardFunction
-        sess = new_session()
         L = len(self.leaf_flags)
         n_nodes = L + len(self.interior)
 
@@ -138,9 +145,12 @@ class EngineCase:
                         dfs(c)
             dfs(self.root)
             # ---- exactly once, after all consumers
+            # on a path where the engine tested a gradient against a constant (e.g. "all zero?") skipping an op is a legitimate optimisation:
+            # there only "never more than once" is demanded, the values are pinned down by the chain-rule clause below
+            pinned = getattr(ex, "path_pins", 0) > 0
             for i in range(L, n_nodes):
                 expected = 1 if (i in reach and req[i]) else 0
-                ob("each_op_once", calls.count(i) == expected,
+                ob("each_op_once", calls.count(i) == expected or (pinned and calls.count(i) <= expected),
                    "grad_fn of node %d invoked %d times (expected %d) in graph %s" % (i, calls.count(i), expected, self.key))
             pos = {i: p for p, i in enumerate(calls)}
             for i in range(L, n_nodes):
@@ -200,7 +210,7 @@ class EngineCase:
                 if i in old:
                     exp = old[i] + exp
                 got = S.of(np.asarray(t._grad, dtype=object)[()])
-                v = prove_equal(got, exp, list(sess.pre))
+                v = prove_equal(got, exp, list(sess.pre) + list(ex.pc))
                 res["solver_s"] += v.seconds
                 res["obligations"] += 1
                 if v.status == "discharged":
@@ -400,6 +410,27 @@ def pattern_programs():
         o = NF.linear(h, T["w2"])
         return NF.mse_loss(o, T["y"]).mean()
     add("mlp_mse", [Leaf("x", (2, 2)), Leaf("w1", (2, 2)), Leaf("b1", (2,)), Leaf("w2", (1, 2)), Leaf("y", (2, 1), "any", False)], mlp)
+    # a stateful building block used again (in another mode) between the forward and the backward of the first use: backward of the first
+    # result is still the derivative of the function that WAS computed (saved operands must not be overwritten by later forwards)
+    def bn_between(first_eval):
+        def build(T, K):
+            import synapgrad.nn as nn_
+            from synapgrad.tensor import Tensor
+            from synapgrad.nn.modules import Parameter
+            L = nn_.BatchNorm1d(2, dtype=T["x"].data.dtype)
+            L.weight, L.bias = Parameter(T["gamma"]), Parameter(T["beta"])
+            T["gamma"], T["beta"] = L.weight, L.bias
+            L.running_mean = Tensor(np.array(T["rm"].data))
+            L.running_var = Tensor(np.array(T["rv"].data))
+            (L.eval if first_eval else L.train)()
+            y1 = L(T["x"])
+            (L.train if first_eval else L.eval)()
+            L(T["x2"])                    # recorded, never differentiated: only its side effects on the layer matter
+            return y1
+        return build
+    for first_eval in (True, False):
+        add("batchnorm_reused_before_backward", [Leaf("x", (2, 2)), Leaf("x2", (2, 2), "any", False), Leaf("gamma", (2,)), Leaf("beta", (2,)), Leaf("rm", (2,), "any", False),
+                                                  Leaf("rv", (2,), "pos", False)], bn_between(first_eval), first_use="eval" if first_eval else "train")
     # order independence: the same expression with independent branches built in every order
     def branches(order):
         def build(T, K):
